@@ -39,13 +39,14 @@ static void c06_try(Buf *b, int kind, const uint8_t *m, uint32_t mn, const Blob 
     TPM_RESULT s0 = 0, s1;
     if (kind == 1) s0 = TPMLIB_SetState(TPMLIB_STATE_PERMANENT, gperm->p, gperm->n);
     s1 = TPMLIB_SetState(kind ? TPMLIB_STATE_VOLATILE : TPMLIB_STATE_PERMANENT, m, mn);
+    int blob_says_failure = s1 == 0 && kind == 1 && g_inFailureMode;   /* SetState has taken the blob in: it carries g_inFailureMode (and the description of the failure) */
     /* after a rejection nothing may stay cached */
     unsigned char *cp = NULL; uint32_t cl = 0; TPM_RESULT g1 = TPMLIB_GetState(TPMLIB_STATE_PERMANENT, &cp, &cl);
     int cached = (g1 == 0 && cp != NULL && cl != 0 && cl != 0xFFFFFFFFu); free(cp);
     TPM_RESULT mi = TPMLIB_MainInit();
-    /* a TPM that comes up in failure mode: either the blob said so (it carries g_inFailureMode and the description of the failure:
-       nothing was recorded by this process) or something failed while the blob was taken in (a failure site is on record) */
-    int mi_blobfail = mi != 0 && g_inFailureMode && s_failLine == 0 && s_failFunction == 0;
+    /* a TPM that comes up in failure mode: either the blob said so (it carries g_inFailureMode and the description of the failure;
+       SetState / ValidateState had already put it into the globals) or something failed while the TPM was started from it */
+    int mi_blobfail = mi != 0 && g_inFailureMode && blob_says_failure;
     int alive = mi == 0 ? c06_alive(b) : -1;
     int manufactured = TPMLIB_WasManufactured();
     tr("door1 n=%ld prev=%u setstate=%u cached_after=%d maininit=%u alive=%d manufactured=%d failcc=%x failfn=%08x failline=%u blobfail=%d", c06_n, s0, s1, cached, mi, alive, manufactured, alive == 2 ? c06_failcc : 0, alive == 2 ? s_failFunction : 0, alive == 2 ? s_failLine : 0, mi_blobfail);
@@ -55,8 +56,9 @@ static void c06_try(Buf *b, int kind, const uint8_t *m, uint32_t mn, const Blob 
     if (kind == 0) blob_set(&g_store[ST_PERM], m, mn);
     else { blob_set(&g_store[ST_PERM], gperm->p, gperm->n); blob_set(&g_store[ST_VOL], m, mn); }
     TPM_RESULT v = TPMLIB_ValidateState(kind ? (TPMLIB_STATE_PERMANENT | TPMLIB_STATE_VOLATILE) : TPMLIB_STATE_PERMANENT, 0);
+    int blob_says_failure2 = v == 0 && kind == 1 && g_inFailureMode;
     TPM_RESULT mi2 = TPMLIB_MainInit();
-    int infail = g_inFailureMode; int mi2_blobfail = mi2 != 0 && g_inFailureMode && s_failLine == 0 && s_failFunction == 0;
+    int infail = g_inFailureMode; int mi2_blobfail = mi2 != 0 && g_inFailureMode && blob_says_failure2;
     int alive2 = mi2 == 0 ? c06_alive(b) : -1;
     tr("door2 n=%ld validate=%u maininit=%u infail=%d alive=%d blobfail=%d", c06_n, v, mi2, infail, alive2, mi2_blobfail);
     /* afterwards a TPM can still be started normally */
